@@ -88,11 +88,22 @@ func RunCase(id string, c Case, zones []string, maxPerm int, w *abs.Writer) (cra
 	rec := Record{Case: id, Pool: c.Pool, Msg: c.Msg}
 	n := len(msg.Ents)
 	orders := [][]int{identity(n)}
-	if n >= 2 && n <= maxPerm {
+	if n >= 2 && n <= maxPerm && len(msg.Fuse) == 0 {
 		orders = Permutations(n)
 	}
 	for _, o := range orders {
 		rec.Runs = append(rec.Runs, ParseOnce(msg, o, "nil", nil))
+	}
+	nonAlerts := 0
+	for _, e := range msg.Ents {
+		if e.K != "al" {
+			nonAlerts++
+		}
+	}
+	if nonAlerts >= 2 && len(msg.Fuse) == 0 { // once more with one FeedEntity.id shared by all trip updates and vehicles
+		DupEntityIDs = true
+		rec.Runs = append(rec.Runs, ParseOnce(msg, identity(n), "nil", nil))
+		DupEntityIDs = false
 	}
 	for _, z := range zones {
 		if z != "nil" {
